@@ -5,6 +5,14 @@ from .. import common, isa, enc, corpus
 NUM = re.compile(r"(?<![A-Za-z0-9_*])(-?)(0[xX][0-9a-fA-F]+|[0-9]+)(?![A-Za-z0-9*])")
 PUNCT = re.compile(r"([,+\-*\[\]])")
 COMMENTS = ["; comment", ";", " ; x: y", "\t; 100% [rax] mov", " ;; rax, rbx", "; trailing:colon % percent [ bracket"]
+# words a comment may contain without meaning anything: directive names, mnemonics, registers, size keywords, punctuation
+CWORDS = ["section", "global", "SECTION .text", "GLOBAL _start", "section.data", "globals", "label:", "mov rax, rbx", "ret", "nop", "0x10", "-1",
+          "byte", "word", "dword", "qword", "short", "long", "near", "[rax+rbx*2]", "%macro", "%define x 1", ";", ",", "the", "counter", "load", "store",
+          "bits 64", "default rel", "extern foo", "db 0x90", "times 4 nop", "align 16", "'quoted'", "\"dq\"", "\\", "#", "@", "!", "ymm0", "jmp 0x100"]
+
+
+def gen_comment(rnd):
+    return rnd.choice([";", " ;", "\t;", " ; ", ";;"]) + " ".join(rnd.choice(CWORDS) for _ in range(rnd.randrange(1, 5)))
 
 
 def rw_case(t, rnd):
@@ -30,7 +38,7 @@ def rw_space(t, rnd):
 
 def rw_frame(t, rnd):
     lead = rnd.choice(["", " ", "  ", "\t", "\t\t", " \t "])
-    trail = rnd.choice(COMMENTS + ["", "  ", "\t"])
+    trail = gen_comment(rnd) if rnd.random() < 0.5 else rnd.choice(COMMENTS + ["", "  ", "\t"])
     return lead + t + trail
 
 
